@@ -67,11 +67,34 @@ def run(ctx):
         p = strip_generics(t["fn"].get("path", ""))
         if p in (RFC, CLASSIC):
             nd += 1
-            mm = acceptance_mismatch(flow.rel_facts_at(IN, bb), {"n": N}, grid, lambda n: 1024 <= n <= 1500)
-            ctx.check("size-gate", "%s/reached-iff-1024..1500" % callee_name(p), mm is None, "parser reached exactly for 1024 <= num_bytes <= 1500",
-                      "size gate before %s differs from 1024..=1500: %s" % (callee_name(p), mm), nf.loc(bb))
             a = ev.call_args(bb)[0]
             oks = a[0] == "index" and a[1] == ("param", NFR, 1) and a[2][0] == "agg" and str(a[2][1]).endswith("RangeTo::RangeTo") and a[2][2][0] == N
+            # the gate may sit in the dispatcher, in the parser, or be split between them: an Ok is produced only for 1024 <= num_bytes <= 1500, where
+            # the parser's own facts about len(its buffer) count as facts about num_bytes (it is given buf[..num_bytes])
+            cal = ctx.fn(p)
+            cev = W.ev(p)
+            CIN = flow.must_facts(cal, cev)
+            CLEN = ("len", ("param", p, 1))
+            here = flow.rel_facts_at(IN, bb)
+
+            def subst(t):
+                if t == CLEN:
+                    return N
+                if isinstance(t, tuple):
+                    return tuple(subst(x) if isinstance(x, tuple) else x for x in t)
+                return t
+            mm = None
+            oks_blocks = ok_return_blocks(cal, cev)
+            if not oks_blocks:
+                mm = "no Ok return found in the parser"
+            for (ob, oi, oterm) in oks_blocks:
+                inner = [(r[0], subst(r[1]), subst(r[2]) if isinstance(r[2], tuple) else r[2]) for r in flow.rel_facts_at(CIN, ob)] if oks else []
+                # accepted => in range (both directions are covered: a rejecting guard is the complement of the accepting facts)
+                m1 = acceptance_mismatch(here + inner, {"n": N}, grid, lambda n: 1024 <= n <= 1500)
+                if m1 is not None:
+                    mm = m1
+            ctx.check("size-gate", "%s/reached-iff-1024..1500" % callee_name(p), mm is None, "a request is accepted only for 1024 <= num_bytes <= 1500 (dispatcher and parser guards together), and every such size reaches the parser's checks",
+                      "size gate of %s differs from 1024..=1500: %s" % (callee_name(p), mm), nf.loc(bb))
             ctx.check("size-gate", "%s/parses-exactly-the-datagram" % callee_name(p), oks, "parser is given buf[..num_bytes]",
                       "parser is given %s" % fmt(a), nf.loc(bb))
     ctx.floor("size-gate", nd, 2, "parser dispatch sites in nonce_from_request")
